@@ -1325,32 +1325,11 @@ impl Bmi2BlockOps {
         }
 
         for &k in indices {
-            // Find the first block where cumulative count > k
-            // This gives us the block containing the k-th one (0-indexed)
-            let block_idx = match cumulative_counts.binary_search(&(k + 1)) {
-                Ok(idx) => {
-                    // Exact match means k+1 ones are before this block
-                    // So the k-th one is in the previous block
-                    if idx == 0 {
-                        return Err(ZiporaError::invalid_data(format!(
-                            "Select index {} out of bounds - no ones before first block",
-                            k
-                        )));
-                    }
-                    idx - 1
-                }
-                Err(idx) => {
-                    // idx is where k+1 would be inserted
-                    // So block idx-1 is where the k-th one is located
-                    if idx == 0 {
-                        return Err(ZiporaError::invalid_data(format!(
-                            "Select index {} out of bounds - before first block",
-                            k
-                        )));
-                    }
-                    idx - 1
-                }
-            };
+            // The block holding the k-th one (0-indexed) is the last block with at most k ones
+            // before it.  Empty blocks repeat a cumulative count, so the boundary has to be the
+            // partition point (binary_search may land on any of several equal entries).
+            // cumulative_counts[0] == 0 <= k, hence the partition point is at least 1.
+            let block_idx = cumulative_counts.partition_point(|&c| c <= k) - 1;
 
             if block_idx >= blocks.len() {
                 return Err(ZiporaError::invalid_data(format!(
